@@ -55,10 +55,17 @@ fn check_one<CS: BbsCiphersuite>(rep: &Report, ck: &str, c: &Case) -> CheckResul
     let l = msgs.len();
     let m_arg: Option<&[Vec<u8>]> = if l == 0 && c.msgs_none { None } else { Some(&msgs) };
 
+    // a call the library refuses right before signing / right before verifying (a quarter of the cases each)
+    if c.key.ikm.seed % 4 == 1 {
+        rep.class(&format!("refused-call-before-sign:{}", crate::history::refused_call::<CS>(c.key.ikm.seed as u64 >> 2)));
+    }
     let sig = match Signature::<BBSplus<CS>>::sign(m_arg, sk, pk, header.as_deref()) {
         Ok(s) => s,
         Err(e) => return rep.fail(ck, "sign-failed", format!("sign returned {:?}", e), cj()),
     };
+    if c.key.ikm.seed % 4 == 3 {
+        rep.class(&format!("refused-call-before-verify:{}", crate::history::refused_call::<CS>(c.key.ikm.seed as u64 >> 2)));
+    }
     // in every second case the signature is first offered with a wrong statement (another header, one message
     // fewer) - whatever the answer, the verdict on the true statement must not depend on it
     if c.key.ikm.seed % 2 == 0 {
@@ -89,6 +96,41 @@ fn check_one<CS: BbsCiphersuite>(rep: &Report, ck: &str, c: &Case) -> CheckResul
             return rep.fail(ck, "verify-failed-on-fresh-thread", "a signature that verifies on the signing thread does not verify on a freshly started thread".into(), cj());
         }
         rep.class("verified-on-fresh-thread");
+    }
+    // keys related to this one, imported through the octet form and used right after it on this thread: r - sk
+    // (the public key is the negation: the encodings differ in the sign bit only), sk + 1, 2 sk, sk with its octets
+    // reversed.  Each must sign and verify like any other key, and the original key must still work afterwards.
+    if c.key.ikm.seed % 3 == 0 {
+        use bls12_381_plus::Scalar;
+        let skb = sk.to_bytes();
+        if let Some(x) = Option::<Scalar>::from(Scalar::from_be_bytes(&skb)) {
+            let mut rev = skb;
+            rev.reverse();
+            let related: Vec<(&str, Scalar)> = vec![("r - sk", -x), ("sk + 1", x + Scalar::ONE), ("2 sk", x.double())]
+                .into_iter()
+                .chain(Option::<Scalar>::from(Scalar::from_be_bytes(&rev)).map(|y| ("octets reversed", y)))
+                .filter(|(_, y)| *y != Scalar::ZERO)
+                .collect();
+            for (what, y) in related {
+                let Ok(sk2) = BBSplusSecretKey::from_bytes(&y.to_be_bytes()) else {
+                    return rep.fail(ck, "related-key-import-failed", format!("secret key {} does not decode", what), cj());
+                };
+                let pk2 = sk2.public_key();
+                rep.eval(ck, 2);
+                match Signature::<BBSplus<CS>>::sign(m_arg, &sk2, &pk2, header.as_deref()) {
+                    Ok(s2) => {
+                        if let Err(e) = s2.verify(&pk2, m_arg, header.as_deref()) {
+                            return rep.fail(ck, "verify-failed:related-key", format!("key {} used right after the case's key: verify of a fresh signature returned {:?}", what, e), cj());
+                        }
+                    }
+                    Err(e) => return rep.fail(ck, "sign-failed:related-key", format!("key {}: {:?}", what, e), cj()),
+                }
+                if let Err(e) = sig.verify(pk, m_arg, header.as_deref()) {
+                    return rep.fail(ck, "verify-failed:after-related-key", format!("after key {} was used, the original signature no longer verifies under its own key: {:?}", what, e), cj());
+                }
+            }
+            rep.class("related-keys-used-in-sequence");
+        }
     }
     // octet round trip
     let bytes = sig.to_bytes();
@@ -319,7 +361,7 @@ pub fn run(ctx: &Ctx, rep: &Report) -> Meta {
     Meta {
         rule: "cases = (suite, key spec, header in {None, Some(b\"\"), bytes}, message vector) from edge-weighted sets, each run under BOTH suites; \
                oracle = sign Ok, verify Ok, 80-byte round trip equal and verifying, None/empty equivalence of header and message list (byte-identical signatures, cross verification); \
-               half of the cases are preceded by a warm-up history of unrelated legal calls on the same thread (other suite, blind interface, custom api_ids, refused operations); a cold-start contention phase (all workers signing and verifying vectors of 1..130 messages at once), a size sweep over every L in 0..=130 (quick) / 0..=520 (thorough), in every second case the signature is first offered with a wrong header and a shortened message list; verification repeated on a freshly started thread for a quarter of the cases; four long-lived threads with 320 (quick) / 2000 (thorough) sign / verify rounds each in sequence; non-trivial = outside the fixture envelope (fixture key and L in {1,10} and header length in {0,16}); distinct by SHA-256 fingerprint of the case"
+               a quarter of the cases run a call the library refuses (17 kinds: key generation with short key material / long tags, garbage octets into the decoders, a commitment of 0xc0 octets into blind_sign, verification / proof generation / update with other headers, positions out of range, lists too short, a tag of 256 octets into hash_to_scalar) right before signing and another quarter right before verifying; a third use keys related to the case's key (r - sk, sk + 1, 2 sk, octets reversed; imported through the octet form) right after it on the same thread; half of the cases are preceded by a warm-up history of unrelated legal calls on the same thread (other suite, blind interface, custom api_ids, refused operations); a cold-start contention phase (all workers signing and verifying vectors of 1..130 messages at once), a size sweep over every L in 0..=130 (quick) / 0..=520 (thorough), in every second case the signature is first offered with a wrong header and a shortened message list; verification repeated on a freshly started thread for a quarter of the cases; four long-lived threads with 320 (quick) / 2000 (thorough) sign / verify rounds each in sequence; non-trivial = outside the fixture envelope (fixture key and L in {1,10} and header length in {0,16}); distinct by SHA-256 fingerprint of the case"
             .into(),
         assumptions: vec![
             "library linked as an ordinary dependency (cfg(not(test)), features bbsplus+bbsplus_blind+cl03)".into(),
